@@ -118,6 +118,34 @@ def multi_file_resync(rnd):
     for middle in (300_001, 2 ** 20 - 1001 - 3 + 2, 2 ** 20 + 1, 2 ** 21 + 3):
         with lib.scratch('vf_c11m_') as root:
             asyncio.run(go(root, middle))
+
+    async def many(root, n_files):
+        # MORE files than any batch / slice of the stream holds: one tiny file added at the front of the stream must not re-chunk
+        # files far behind it
+        r = Repository(Local(root / 'repo'), concurrent=2, quiet=True, cache_directory=None)
+        src = root / 'src'
+        src.mkdir()
+        for i in range(n_files):
+            (src / f'f{i:05d}').write_bytes(rnd.randbytes(40 + (i % 7)))
+        with lib.quiet():
+            await r.init(settings={'encryption': None, 'chunking': {'min_length': 8, 'max_length': 128}})
+            await r.unlock()
+            s1 = await r.snapshot(paths=[src])
+            (src / 'a_first').write_bytes(b'!')
+            s2 = await r.snapshot(paths=[src])
+        await r.close()
+        old = set(s1.chunks)
+        order = sorted(s2.data['files'], key=lambda f: (sum(c['range'][1] - c['range'][0] for c in f['chunks']), f['path']))
+        far = []
+        for rank, f in enumerate(order):
+            if rank > 200 and any(s2.chunks[c['index']] not in old for c in f['chunks']):
+                far.append(rank)
+        if far:
+            problems.append({'problem': 'a one-byte file added at the front of the stream re-chunked files far behind it', 'middle_size': f'{n_files} files',
+                             'stream_ranks_touched': far[:6], 'files': n_files})
+
+    with lib.scratch('vf_c11n_') as root:
+        asyncio.run(many(root, 2300))
     return problems
 
 
